@@ -6,6 +6,7 @@
    Universal over inputs; the programs are generated (sampled) by the check. *)
 From Coq Require Import ZArith NArith List Bool Arith.
 From Verif Require Import RegAlloc.RaIRModel RegAlloc.RaIRProofs RegAlloc.RaIRProgress RegAlloc.RaIRExamples.
+From Verif Require Import RegAlloc.RwRuleModel RegAlloc.RwRuleProofs.
 Import ListNotations.
 Local Open Scope Z_scope.
 
@@ -121,3 +122,58 @@ Print Assumptions C05_accepts_correct_spill_loop_full.
 Theorem C05_rejects_silent_loop_in_inserted_code : validate_full ex_src ex_spin ex_spin_h = false.
 Proof. exact ex_spin_rejected. Qed.
 Print Assumptions C05_rejects_silent_loop_in_inserted_code.
+
+(* ------------------------------------------------------------------ the use/def classification (run extracted, on raw RW facts)
+   Mini semantics of a register write: byte i of the register becomes the result byte if i is in the write mask, 0 if it is
+   only in the extend mask, and keeps its old value otherwise (hw_byte). *)
+Theorem C05_partial_write_rule : forall a64 id r us d old old' res,
+  classify a64 id r = (us, [d]) ->
+  (is_partial r = true -> old_agree us old old') ->
+  forall i, (i < d)%nat -> hw_byte (r_wmask r) (r_emask r) old res i = hw_byte (r_wmask r) (r_emask r) old' res i.
+Proof. exact classify_write_sound. Qed.
+Print Assumptions C05_partial_write_rule.
+
+Theorem C05_partial_write_rule_no_def : forall a64 id r us,
+  classify a64 id r = (us, []) -> r_write r = false \/ keeps id r = true.
+Proof. exact classify_no_def. Qed.
+Print Assumptions C05_partial_write_rule_no_def.
+
+Theorem C05_partial_write_rule_keeps : forall id r old res,
+  keeps id r = true ->
+  (forall i, mbit (r_wmask r) i = true -> byte i res = byte i old) ->
+  forall i, (i < r_vsize r)%nat -> hw_byte (r_wmask r) (r_emask r) old res i = byte i old.
+Proof. exact keeps_sound. Qed.
+Print Assumptions C05_partial_write_rule_keeps.
+
+(* the idiom table: for the tagged operations (alu_sem) a "result independent of the register" idiom really is, and a
+   "value preserved" idiom really preserves *)
+Theorem C05_idiom_same_register_constant : forall op w a a', idiom_of op true None w = IWO -> alu_sem op w a a = alu_sem op w a' a'.
+Proof. exact idiom_same_wo. Qed.
+Print Assumptions C05_idiom_same_register_constant.
+
+Theorem C05_idiom_same_register_identity : forall op w a, idiom_of op true None w = IRO -> alu_sem op w a a = trb w a.
+Proof. exact idiom_same_ro. Qed.
+Print Assumptions C05_idiom_same_register_identity.
+
+Theorem C05_idiom_immediate_constant : forall op w a a' i, idiom_of op false (Some i) w = IWO -> alu_sem op w a i = alu_sem op w a' i.
+Proof. exact idiom_imm_wo. Qed.
+Print Assumptions C05_idiom_immediate_constant.
+
+Theorem C05_idiom_immediate_identity : forall op w a i, idiom_of op false (Some i) w = IRO -> alu_sem op w a i = trb w a.
+Proof. exact idiom_imm_ro. Qed.
+Print Assumptions C05_idiom_immediate_identity.
+
+(* annotated jump tables (SJmpTab/TJmpTab) are part of the IR the soundness theorems above quantify over *)
+Theorem C05_accepts_jump_table : validate_full ex_src_jt ex_jt_good [Some 0; Some 1; Some 2; Some 3; Some 4; Some 5; None; Some 7]%nat = true.
+Proof. exact ex_jt_good_accepted. Qed.
+Print Assumptions C05_accepts_jump_table.
+
+Theorem C05_rejects_jump_table_target_with_two_assignments :
+  validate ex_src_jt ex_jt_bad [Some 0; Some 1; Some 2; Some 3; Some 4; Some 5; None; Some 7]%nat = false.
+Proof. exact ex_jt_bad_rejected. Qed.
+Print Assumptions C05_rejects_jump_table_target_with_two_assignments.
+
+Theorem C05_rejects_permuted_jump_table :
+  validate ex_src_jt ex_jt_perm [Some 0; Some 1; Some 2; Some 3; Some 4; Some 5; None; Some 7]%nat = false.
+Proof. exact ex_jt_perm_rejected. Qed.
+Print Assumptions C05_rejects_permuted_jump_table.
